@@ -1,5 +1,6 @@
 """gowp command line."""
 import argparse
+import threading
 import json
 import os
 import re
@@ -626,6 +627,9 @@ def write_lock(props):
         print('locked %s: %d functions, %d obligations' % (prop, len(d), sum(len(v) for v in d.values())))
     json.dump(lock, open(lp, 'w'), indent=0, sort_keys=True)
     return 0
+
+
+sys.setrecursionlimit(200000)
 
 
 def main(argv=None):
